@@ -10,20 +10,20 @@ namespace Dashu.Model.Cross
 def Num.HashOKWeak : Num → Prop
   | .rbig n d => 0 < d ∧ ¬ (M127 ∣ d ∧ (M127 : Int) ∣ n ∧ n ≠ 0)
   | .relaxed n d => 0 < d ∧ ¬ (M127 ∣ d ∧ (M127 : Int) ∣ n ∧ n ≠ 0)
-  | x => x.HashOK
+  | x => x.HashOKPre
 
-theorem Num.HashOKWeak.canon {x : Num} (h : x.HashOKWeak) : x.HashOKCanon := by
-  cases x <;> simp only [Num.HashOKWeak, Num.HashOKCanon, Num.HashOK] at * <;> first | exact h | exact h.1
+theorem Num.HashOKWeak.canon {x : Num} (h : x.HashOKWeak) : x.HashOK := by
+  cases x <;> simp only [Num.HashOKWeak, Num.HashOK, Num.HashOKPre] at * <;> first | exact h | exact h.1
 
-theorem numHashFeedCanon_eq_feed {x : Num} (h : x.HashOKWeak) : numHashFeedCanon x = numHashFeed x := by
-  cases x <;> simp only [numHashFeedCanon, numHashFeed, Num.HashOKWeak] at * <;>
-    first | rfl | exact ratHashCanon_eq_ratHash h.2
+theorem numHashFeed_eq_feed {x : Num} (h : x.HashOKWeak) : numHashFeed x = numHashFeedPre x := by
+  cases x <;> simp only [numHashFeed, numHashFeedPre, Num.HashOKWeak] at * <;>
+    first | rfl | exact ratHash_eq_ratHashPre h.2
 
 /-- equal values feed the same `i128`, for all arguments outside defect class C -/
-theorem numHash_value_weak {x y : Num} (hx : x.HashOKWeak) (hy : y.HashOKWeak) {n1 n2 : Int} {d1 d2 : Nat}
+theorem numHashPre_value_weak {x y : Num} (hx : x.HashOKWeak) (hy : y.HashOKWeak) {n1 n2 : Int} {d1 d2 : Nat}
     (vx : x.value = .fin n1 d1) (vy : y.value = .fin n2 d2) (h : n1 * d2 = n2 * d1) :
-    numHashFeed x = numHashFeed y := by
-  rw [← numHashFeedCanon_eq_feed hx, ← numHashFeedCanon_eq_feed hy]
-  exact numHashCanon_value hx.canon hy.canon vx vy h
+    numHashFeedPre x = numHashFeedPre y := by
+  rw [← numHashFeed_eq_feed hx, ← numHashFeed_eq_feed hy]
+  exact numHash_value hx.canon hy.canon vx vy h
 
 end Dashu.Model.Cross
